@@ -471,6 +471,7 @@ def check(col, prog, tier, profile, fixture=None):
                 col.ok("R6" + sfx, b.loc(), "%s|leaf-takes-next" % fk(b), "data[i] = iter.next().unwrap()")
             else:
                 col.violation("R6" + sfx, "%s|leaf-takes-next" % fk(b), b.loc(), "a leaf of rebuild must store exactly the next element of the iterator into data[i]")
+    rule_build_empty(col, R, "R6", sfx)
     for cn, builder in (("new", "rebuild_empty"), ("from_slice", "rebuild"), ("from_iter", "rebuild")):
         b = R.fn[cn]
         I = analyse(b)
@@ -511,6 +512,32 @@ def check(col, prog, tier, profile, fixture=None):
     from . import c01_items
 
     c01_items.check_items(col, crate, sfx)
+
+
+def rule_build_empty(col, R, rid, sfx):
+    """rebuild_empty (the tree of `new(n, value)`): every node is either a leaf (vl == vr on the path; it keeps the fill
+    value) or builds both children and then recomputes itself - a path that returns early (`if l == 1 { return }`) leaves a
+    subtree of unmerged fill values behind"""
+    fk = util.fkey
+    b = R.fn["rebuild_empty"]
+    I = analyse(b)
+    node, vl, vr = infer_positions(I, b)
+    Pi, Pvl, Pvr = VP(I, b, node), VP(I, b, vl), VP(I, b, vr)
+    for st in I.final_states:
+        evs = st.event_list()
+        recs = [e for e in evs if is_call_to(e, b)]
+        key = "%s|every-node-built" % fk(b)
+        if recs:
+            kids = sorted(1 if util.lin_equal(VA(b, e)[node], ("bin", "Add", ("bin", "Mul", Pi, mk_int(2)), mk_int(1))) else 2 if util.lin_equal(VA(b, e)[node], ("bin", "Add", ("bin", "Mul", Pi, mk_int(2)), mk_int(2))) else 0 for e in recs)
+            last = max(k for k, e in enumerate(evs) if is_call_to(e, b))
+            merged = any((is_call_to(e, R.fn["merge_at"]) and e.args[1] == Pi) or (e.kind == "call" and e.extra.get("name") in ("update", "merge") and (e.extra.get("trait") or "").endswith("SegtreeItem")) for e in evs[last + 1:])
+            ok = kids == [1, 2] and merged
+        else:
+            ok = zones.entails(st.facts, "Eq", Pvl, Pvr, I.tys)
+        if ok:
+            col.ok(rid + sfx, b.loc(), key + ("|inner" if recs else "|leaf"), "both children built, then the node recomputed" if recs else "returns without building only at a leaf (vl == vr)")
+        else:
+            col.violation(rid + sfx, key, b.loc(), "%s has a path that %s: the nodes below keep unmerged fill values" % (b.path, "does not build both children and recompute the node" if recs else "returns without building although the node is not known to be a leaf"))
 
 
 def rule_routing(col, R, rid, sfx, only=None):
